@@ -1,6 +1,7 @@
 // driver TU for C04: async<T> members (contract units) and scripted coroutines + drive scenarios (bounded drives of the lowered code).
 #include <cocls/future.h>
 #include <cocls/async.h>
+#include <cocls/with_allocator.h>
 using namespace cocls;
 
 // ---- instrumentation visible to the harness (plain globals; extern "C" names)
@@ -62,4 +63,24 @@ int drive_dbg5(int x) { future<int> src; auto p = src.get_promise(); Holder *h =
 }
 extern "C" {
 int drive_dbg6(int x) { future<int> src; int r; { auto p = src.get_promise(); promise<int> q(std::move(p)); void *c = q.claim(); r = (c == &src); } return r && src.pending(); }
+}
+
+// ---- join() x completion by exception, async<int> and async<void> (the joiner is the bound party: it must see the exception)
+static async<void> co_void_throw(int x, Guard g) { Guard local; g_body_runs[1]++; throw x; co_return; }
+extern "C" {
+int drive_join_throw(int x) { try { g_seen_value = co_throw(x, Guard()).join(); } catch (int e) { g_seen_exc = e; } return 1; }
+int drive_join_void(int x) { co_void(x, Guard()).join(); g_seen_value = 1; return 1; }
+int drive_join_void_throw(int x) { try { co_void_throw(x, Guard()).join(); g_seen_value = 1; } catch (int e) { g_seen_exc = e; } return 1; }
+}
+
+// ---- frame placed through a storage policy (with_allocator): the policy must get back exactly the block it handed out, with its size
+extern "C" { int g_acc_allocs, g_acc_deallocs; unsigned long g_acc_alloc_sz, g_acc_dealloc_sz; void *g_acc_ptr, *g_acc_dealloc_ptr; }
+struct AccStorage {
+    void *alloc(std::size_t sz) { g_acc_allocs++; g_acc_alloc_sz = sz; g_acc_ptr = ::operator new(sz); return g_acc_ptr; }
+    static void dealloc(void *p, std::size_t sz) { g_acc_deallocs++; g_acc_dealloc_sz = sz; g_acc_dealloc_ptr = p; ::operator delete(p); }
+};
+static with_allocator<AccStorage, async<int> > co_alloc_value(AccStorage &, int x, Guard g) { Guard local; g_body_runs[0]++; co_return x + 1; }
+extern "C" {
+int drive_alloc_value(int x) { AccStorage st; future<int> f = co_alloc_value(st, x, Guard()).start(); observe(f); return 1; }
+int drive_alloc_never_started(int x) { AccStorage st; { async<int> a = co_alloc_value(st, x, Guard()); } return 1; }
 }
